@@ -1,1 +1,810 @@
-From Coq Require Import ZArith List.
+(* Lemmas for C14: sizes of the descriptor writers (C14_len), the TLV framing of parseDescriptors (C14_tlv),
+   per-tag round trips. *)
+From Coq Require Import ZArith List Lia Bool ZifyBool.
+Require Import Base.Bits Base.Iter Base.Wr Gen.Consts Gen.Types Gen.Preds Model.Dvb Model.Desc Spec.DescSpec.
+Import ListNotations.
+Open Scope Z_scope.
+
+(* ================= part A: sizes ================= *)
+
+(* number of bits an item list hands to the BitsWriter *)
+Definition bitlen (l : list witem) : Z := Z.of_nat (length (items_bits l)).
+
+Lemma bitlen_nil : bitlen [] = 0. Proof. reflexivity. Qed.
+Lemma bitlen_app a b : bitlen (a ++ b) = bitlen a + bitlen b.
+Proof. unfold bitlen. rewrite items_bits_app, app_length. lia. Qed.
+Lemma bitlen_cons it l : bitlen (it :: l) = bitlen [it] + bitlen l.
+Proof. change (it :: l) with ([it] ++ l). apply bitlen_app. Qed.
+Lemma bitlen_bits w v : bitlen [WBits w v] = Z.of_nat w.
+Proof. unfold bitlen, items_bits; cbn [flat_map item_bits]. rewrite app_nil_r, bits_of_length. reflexivity. Qed.
+Lemma bitlen_bool b : bitlen [WBool b] = 1. Proof. reflexivity. Qed.
+Lemma bitlen_bytes bs : bitlen [WBytes bs] = 8 * zlen bs.
+Proof. unfold bitlen, items_bits, zlen; cbn [flat_map item_bits]. rewrite app_nil_r, bits_of_bytes_length. lia. Qed.
+Lemma bitlen_repeat it n : bitlen (repeat it n) = Z.of_nat n * bitlen [it].
+Proof. induction n as [|n IH]; [reflexivity|]. cbn [repeat]. rewrite bitlen_cons, IH. lia. Qed.
+
+Lemma bitlen_wbytesn bs n pad : bitlen (wbytesn bs n pad) = 8 * Z.of_nat n.
+Proof.
+  unfold wbytesn. destruct (n =? 0)%nat eqn:E0; [apply Nat.eqb_eq in E0; subst; reflexivity|].
+  destruct (n <=? length bs)%nat eqn:E1.
+  - apply Nat.leb_le in E1. rewrite bitlen_bytes. unfold zlen. rewrite firstn_length. lia.
+  - apply Nat.leb_gt in E1. rewrite bitlen_cons, bitlen_bytes, bitlen_repeat. unfold wu8. rewrite bitlen_bits. unfold zlen. lia.
+Qed.
+
+Lemma bitlen_wif c l : bitlen (wif c l) = if c then bitlen l else 0.
+Proof. destruct c; reflexivity. Qed.
+
+Lemma bitlen_flat_map {A} (f : A -> list witem) (g : A -> Z) (l : list A) :
+  (forall x, bitlen (f x) = g x) -> bitlen (flat_map f l) = sumZ g l.
+Proof.
+  intros H. induction l as [|x l IH]; [reflexivity|]. cbn [flat_map sumZ fold_right]. rewrite bitlen_app, H, IH. reflexivity.
+Qed.
+
+Lemma sumZ_const {A} (l : list A) k : sumZ (fun _ => k) l = k * zlen l.
+Proof. unfold zlen. induction l as [|x l IH]; [cbn; lia|]. cbn [sumZ fold_right length]. unfold sumZ in IH. rewrite IH. lia. Qed.
+
+Lemma sumZ_ext {A} (f g : A -> Z) l : (forall x, f x = g x) -> sumZ f l = sumZ g l.
+Proof. intros H. induction l as [|x l IH]; [reflexivity|]. cbn [sumZ fold_right]. unfold sumZ in IH. rewrite H, IH. reflexivity. Qed.
+
+Lemma blen_zlen bs : blen bs = zlen bs. Proof. reflexivity. Qed.
+
+Ltac bl := unfold wu8, wu16, wu32;
+  repeat first [ rewrite bitlen_app | rewrite bitlen_wbytesn | rewrite bitlen_wif | rewrite bitlen_bits
+               | rewrite bitlen_bool | rewrite bitlen_bytes | rewrite bitlen_nil
+               | rewrite (bitlen_cons _ (_ :: _)) ].
+
+(* the DVB time writers behind the local time offset descriptor, through the interface of Model/Dvb.v *)
+Lemma bitlen_enc_dvb_duration_minutes ns : bitlen (enc_dvb_duration_minutes ns) = 16.
+Proof. unfold enc_dvb_duration_minutes. bl. reflexivity. Qed.
+Lemma bitlen_enc_dvb_time t : bitlen (enc_dvb_time t) = 40.
+Proof.
+  unfold enc_dvb_time, enc_dvb_duration_seconds.
+  repeat match goal with |- context [let '(_, _) := ?x in _] => destruct x end.
+  bl. reflexivity.
+Qed.
+
+(* ---- L1: every body writer emits 8 * size bits ---- *)
+
+Lemma bitlen_enc_ac3 v : bitlen (enc_ac3 v) = 8 * size_ac3 v.
+Proof.
+  unfold enc_ac3, size_ac3. bl.
+  destruct (DescriptorAC3_HasComponentType v), (DescriptorAC3_HasBSID v), (DescriptorAC3_HasMainID v), (DescriptorAC3_HasASVC v);
+    cbn [Z.b2z]; bl; lia.
+Qed.
+
+Lemma bitlen_enc_avc_video v : bitlen (enc_avc_video v) = 8 * size_avc_video v.
+Proof. unfold enc_avc_video, size_avc_video. bl. reflexivity. Qed.
+
+Lemma bitlen_enc_component v : bitlen (enc_component v) = 8 * size_component v.
+Proof. unfold enc_component, size_component. bl. lia. Qed.
+
+Lemma bitlen_enc_content v : bitlen (enc_content v) = 8 * size_content v.
+Proof.
+  unfold enc_content, size_content. rewrite (bitlen_flat_map _ (fun _ => 16)).
+  - rewrite sumZ_const. lia.
+  - intros x. unfold enc_content_item. bl. reflexivity.
+Qed.
+
+Lemma bitlen_enc_data_stream_alignment v : bitlen (enc_data_stream_alignment v) = 8 * size_data_stream_alignment v.
+Proof. unfold enc_data_stream_alignment. bl. reflexivity. Qed.
+
+Lemma bitlen_enc_enhanced_ac3 v : bitlen (enc_enhanced_ac3 v) = 8 * size_enhanced_ac3 v.
+Proof.
+  unfold enc_enhanced_ac3, size_enhanced_ac3. bl.
+  destruct (DescriptorEnhancedAC3_HasComponentType v), (DescriptorEnhancedAC3_HasBSID v), (DescriptorEnhancedAC3_HasMainID v),
+    (DescriptorEnhancedAC3_HasASVC v), (DescriptorEnhancedAC3_HasSubStream1 v), (DescriptorEnhancedAC3_HasSubStream2 v),
+    (DescriptorEnhancedAC3_HasSubStream3 v); cbn [Z.b2z]; bl; lia.
+Qed.
+
+Lemma bitlen_enc_extended_event v : bitlen (enc_extended_event v) = 8 * size_extended_event v.
+Proof.
+  unfold enc_extended_event, size_extended_event, size_extended_event_items. bl.
+  rewrite (bitlen_flat_map _ (fun it => 8 * size_extended_event_item it)).
+  - assert (E : forall l, sumZ (fun it => 8 * size_extended_event_item it) l = 8 * sumZ size_extended_event_item l).
+    { induction l as [|x l IH]; [reflexivity|]. cbn [sumZ fold_right]. unfold sumZ in IH. rewrite IH. lia. }
+    rewrite E. lia.
+  - intros it. unfold enc_extended_event_item, size_extended_event_item. bl. lia.
+Qed.
+
+Lemma bitlen_enc_supplementary_audio v :
+  bitlen (enc_extension_supplementary_audio v) = 8 * size_supplementary_audio v.
+Proof.
+  unfold enc_extension_supplementary_audio, size_supplementary_audio. bl.
+  destruct (DescriptorExtensionSupplementaryAudio_HasLanguageCode v); bl; lia.
+Qed.
+
+Lemma bitlen_enc_extension v its : enc_extension v = Ok its -> bitlen its = 8 * size_extension v.
+Proof.
+  unfold enc_extension, size_extension.
+  destruct (DescriptorExtension_Tag v =? C_DescriptorTagExtensionSupplementaryAudio).
+  - destruct (DescriptorExtension_SupplementaryAudio v) as [s|]; cbn [dneed res_map]; [|discriminate].
+    intros H; inversion H; subst. rewrite bitlen_cons, bitlen_enc_supplementary_audio. bl. lia.
+  - intros H; inversion H; subst. destruct (DescriptorExtension_Unknown v); bl; lia.
+Qed.
+
+Lemma bitlen_enc_iso639 v : bitlen (enc_iso639 v) = 8 * size_iso639 v.
+Proof. unfold enc_iso639, size_iso639. bl. reflexivity. Qed.
+
+Lemma bitlen_enc_local_time_offset v : bitlen (enc_local_time_offset v) = 8 * size_local_time_offset v.
+Proof.
+  unfold enc_local_time_offset, size_local_time_offset. rewrite (bitlen_flat_map _ (fun _ => 104)).
+  - rewrite sumZ_const. lia.
+  - intros x. unfold enc_local_time_offset_item. bl.
+    rewrite !bitlen_enc_dvb_duration_minutes, bitlen_enc_dvb_time. reflexivity.
+Qed.
+
+Lemma bitlen_enc_maximum_bitrate v : bitlen (enc_maximum_bitrate v) = 8 * size_maximum_bitrate v.
+Proof. unfold enc_maximum_bitrate. bl. reflexivity. Qed.
+
+Lemma bitlen_enc_network_name v : bitlen (enc_network_name v) = 8 * size_network_name v.
+Proof. unfold enc_network_name, size_network_name. bl. reflexivity. Qed.
+
+Lemma bitlen_enc_parental_rating v : bitlen (enc_parental_rating v) = 8 * size_parental_rating v.
+Proof.
+  unfold enc_parental_rating, size_parental_rating. rewrite (bitlen_flat_map _ (fun _ => 32)).
+  - rewrite sumZ_const. lia.
+  - intros x. unfold enc_parental_rating_item. bl. reflexivity.
+Qed.
+
+Lemma bitlen_enc_private_data_indicator v : bitlen (enc_private_data_indicator v) = 8 * size_private_data_indicator v.
+Proof. unfold enc_private_data_indicator. bl. reflexivity. Qed.
+Lemma bitlen_enc_private_data_specifier v : bitlen (enc_private_data_specifier v) = 8 * size_private_data_specifier v.
+Proof. unfold enc_private_data_specifier. bl. reflexivity. Qed.
+
+Lemma bitlen_enc_registration v : bitlen (enc_registration v) = 8 * size_registration v.
+Proof. unfold enc_registration, size_registration. bl. lia. Qed.
+
+Lemma bitlen_enc_service v : bitlen (enc_service v) = 8 * size_service v.
+Proof. unfold enc_service, size_service. bl. lia. Qed.
+
+Lemma bitlen_enc_short_event v : bitlen (enc_short_event v) = 8 * size_short_event v.
+Proof. unfold enc_short_event, size_short_event. bl. lia. Qed.
+
+Lemma bitlen_enc_stream_identifier v : bitlen (enc_stream_identifier v) = 8 * size_stream_identifier v.
+Proof. unfold enc_stream_identifier. bl. reflexivity. Qed.
+
+Lemma bitlen_enc_subtitling v : bitlen (enc_subtitling v) = 8 * size_subtitling v.
+Proof.
+  unfold enc_subtitling, size_subtitling. rewrite (bitlen_flat_map _ (fun _ => 64)).
+  - rewrite sumZ_const. lia.
+  - intros x. unfold enc_subtitling_item. bl. reflexivity.
+Qed.
+
+Lemma bitlen_enc_teletext v : bitlen (enc_teletext v) = 8 * size_teletext v.
+Proof.
+  unfold enc_teletext, size_teletext. rewrite (bitlen_flat_map _ (fun _ => 40)).
+  - rewrite sumZ_const. lia.
+  - intros x. unfold enc_teletext_item. bl. reflexivity.
+Qed.
+
+(* the six line-based VBI services of the code are those of EN 300 468 table 105 *)
+Lemma is_vbi_line_service_spec id : is_vbi_line_service id = spec_is_vbi_line_service id.
+Proof.
+  unfold is_vbi_line_service, spec_is_vbi_line_service.
+  unfold C_VBIDataServiceIDClosedCaptioning, C_VBIDataServiceIDEBUTeletext, C_VBIDataServiceIDInvertedTeletext,
+    C_VBIDataServiceIDMonochrome442Samples, C_VBIDataServiceIDVPS, C_VBIDataServiceIDWSS.
+  destruct (id =? 1) eqn:?, (id =? 2) eqn:?, (id =? 4) eqn:?, (id =? 5) eqn:?, (id =? 6) eqn:?, (id =? 7) eqn:?; reflexivity.
+Qed.
+
+Lemma bitlen_enc_vbi_data v : bitlen (enc_vbi_data v) = 8 * size_vbi_data v.
+Proof.
+  unfold enc_vbi_data, size_vbi_data.
+  rewrite (bitlen_flat_map _ (fun s => 8 * size_vbi_data_service s)).
+  - induction (DescriptorVBIData_Services v) as [|x l IH]; [reflexivity|]. cbn [sumZ fold_right]. unfold sumZ in IH. rewrite IH. lia.
+  - intros s. unfold enc_vbi_data_service, size_vbi_data_service. rewrite is_vbi_line_service_spec.
+    destruct (spec_is_vbi_line_service _).
+    + rewrite bitlen_cons, (bitlen_cons _ (flat_map _ _)). rewrite (bitlen_flat_map _ (fun _ => 8)).
+      * rewrite sumZ_const. bl. unfold zlen. lia.
+      * intros l. unfold enc_vbi_line. bl. reflexivity.
+    + bl. reflexivity.
+Qed.
+
+Lemma bitlen_enc_unknown v : bitlen (enc_unknown v) = 8 * size_unknown v.
+Proof. unfold enc_unknown, size_unknown. bl. reflexivity. Qed.
+
+(* ---- L2: the length calculators (re-translated from descriptor.go) are the sizes modulo 256 ---- *)
+
+Lemma b2z_if (b : bool) (x : Z) : (if b then x + 1 else x) = x + Z.b2z b.
+Proof. destruct b; cbn [Z.b2z]; lia. Qed.
+
+Lemma calc_ac3_size v : calcDescriptorAC3Length (Some v) = size_ac3 v mod 256.
+Proof. unfold calcDescriptorAC3Length, size_ac3, zlen. cbn [odflt]. rewrite !b2z_if. f_equal. Qed.
+Lemma calc_avc_video_size v : calcDescriptorAVCVideoLength (Some v) = size_avc_video v mod 256.
+Proof. reflexivity. Qed.
+Lemma calc_component_size v : calcDescriptorComponentLength (Some v) = size_component v mod 256.
+Proof. reflexivity. Qed.
+Lemma calc_content_size v : calcDescriptorContentLength (Some v) = size_content v mod 256.
+Proof. reflexivity. Qed.
+Lemma calc_data_stream_alignment_size v : calcDescriptorDataStreamAlignmentLength (Some v) = size_data_stream_alignment v mod 256.
+Proof. reflexivity. Qed.
+Lemma calc_enhanced_ac3_size v : calcDescriptorEnhancedAC3Length (Some v) = size_enhanced_ac3 v mod 256.
+Proof. unfold calcDescriptorEnhancedAC3Length, size_enhanced_ac3, zlen. cbn [odflt]. rewrite !b2z_if. f_equal. Qed.
+
+Lemma extended_event_loop l a :
+  fold_left calcDescriptorExtendedEventLength_loop1 l a = a + sumZ size_extended_event_item l.
+Proof.
+  revert a. induction l as [|x l IH]; intros a; [cbn; lia|].
+  cbn [fold_left sumZ fold_right]. rewrite IH. unfold calcDescriptorExtendedEventLength_loop1, size_extended_event_item, zlen, sumZ. lia.
+Qed.
+Lemma calc_extended_event_size v :
+  calcDescriptorExtendedEventLength (Some v) = (size_extended_event v mod 256, size_extended_event_items v mod 256).
+Proof.
+  unfold calcDescriptorExtendedEventLength, size_extended_event, size_extended_event_items. cbn [odflt].
+  rewrite extended_event_loop. unfold zlen. f_equal; f_equal; lia.
+Qed.
+
+Lemma calc_supplementary_audio_size v :
+  calcDescriptorExtensionSupplementaryAudioLength (Some v) = size_supplementary_audio v.
+Proof.
+  unfold calcDescriptorExtensionSupplementaryAudioLength, size_supplementary_audio, zlen. cbn [odflt].
+  destruct (DescriptorExtensionSupplementaryAudio_HasLanguageCode v); lia.
+Qed.
+Lemma calc_extension_size v : calc_extension_length (Some v) = size_extension v mod 256.
+Proof.
+  unfold calc_extension_length, size_extension.
+  destruct (DescriptorExtension_Tag v =? C_DescriptorTagExtensionSupplementaryAudio).
+  - destruct (DescriptorExtension_SupplementaryAudio v) as [s|]; [rewrite calc_supplementary_audio_size|]; reflexivity.
+  - destruct (DescriptorExtension_Unknown v); f_equal; unfold blen, zlen; lia.
+Qed.
+Lemma calc_iso639_size v : calcDescriptorISO639LanguageAndAudioTypeLength (Some v) = size_iso639 v mod 256.
+Proof. reflexivity. Qed.
+Lemma calc_local_time_offset_size v : calcDescriptorLocalTimeOffsetLength (Some v) = size_local_time_offset v mod 256.
+Proof. reflexivity. Qed.
+Lemma calc_maximum_bitrate_size v : calcDescriptorMaximumBitrateLength (Some v) = size_maximum_bitrate v mod 256.
+Proof. reflexivity. Qed.
+Lemma calc_network_name_size v : calcDescriptorNetworkNameLength (Some v) = size_network_name v mod 256.
+Proof. reflexivity. Qed.
+Lemma calc_parental_rating_size v : calcDescriptorParentalRatingLength (Some v) = size_parental_rating v mod 256.
+Proof. reflexivity. Qed.
+Lemma calc_private_data_indicator_size v : calcDescriptorPrivateDataIndicatorLength (Some v) = size_private_data_indicator v mod 256.
+Proof. reflexivity. Qed.
+Lemma calc_private_data_specifier_size v : calcDescriptorPrivateDataSpecifierLength (Some v) = size_private_data_specifier v mod 256.
+Proof. reflexivity. Qed.
+Lemma calc_registration_size v : calcDescriptorRegistrationLength (Some v) = size_registration v mod 256.
+Proof. reflexivity. Qed.
+Lemma calc_service_size v : calcDescriptorServiceLength (Some v) = size_service v mod 256.
+Proof. unfold calcDescriptorServiceLength, size_service, zlen. cbn [odflt]. f_equal. lia. Qed.
+Lemma calc_short_event_size v : calcDescriptorShortEventLength (Some v) = size_short_event v mod 256.
+Proof. unfold calcDescriptorShortEventLength, size_short_event, zlen. cbn [odflt]. f_equal. Qed.
+Lemma calc_stream_identifier_size v : calcDescriptorStreamIdentifierLength (Some v) = size_stream_identifier v mod 256.
+Proof. reflexivity. Qed.
+Lemma calc_subtitling_size v : calcDescriptorSubtitlingLength (Some v) = size_subtitling v mod 256.
+Proof. reflexivity. Qed.
+Lemma calc_teletext_size v : calcDescriptorTeletextLength (Some v) = size_teletext v mod 256.
+Proof. reflexivity. Qed.
+
+Lemma vbi_data_loop l a : fold_left calcDescriptorVBIDataLength_loop1 l a = a + sumZ size_vbi_data_service l.
+Proof.
+  revert a. induction l as [|x l IH]; intros a; [cbn; lia|].
+  cbn [fold_left sumZ fold_right]. rewrite IH. unfold calcDescriptorVBIDataLength_loop1, size_vbi_data_service, sumZ.
+  fold (is_vbi_line_service (DescriptorVBIDataService_DataServiceID x)). rewrite is_vbi_line_service_spec.
+  destruct (spec_is_vbi_line_service _); unfold zlen; lia.
+Qed.
+Lemma calc_vbi_data_size v : calcDescriptorVBIDataLength (Some v) = size_vbi_data v mod 256.
+Proof. unfold calcDescriptorVBIDataLength, size_vbi_data. cbn [odflt]. rewrite vbi_data_loop. f_equal. Qed.
+Lemma calc_unknown_size v : calcDescriptorUnknownLength (Some v) = size_unknown v mod 256.
+Proof. reflexivity. Qed.
+
+(* ---- the tag dispatch ---- *)
+
+Ltac unfold_tags := unfold C_DescriptorTagAC3, C_DescriptorTagAVCVideo, C_DescriptorTagComponent, C_DescriptorTagContent,
+  C_DescriptorTagDataStreamAlignment, C_DescriptorTagEnhancedAC3, C_DescriptorTagExtendedEvent, C_DescriptorTagExtension,
+  C_DescriptorTagISO639LanguageAndAudioType, C_DescriptorTagLocalTimeOffset, C_DescriptorTagMaximumBitrate,
+  C_DescriptorTagNetworkName, C_DescriptorTagParentalRating, C_DescriptorTagPrivateDataIndicator,
+  C_DescriptorTagPrivateDataSpecifier, C_DescriptorTagRegistration, C_DescriptorTagService, C_DescriptorTagShortEvent,
+  C_DescriptorTagStreamIdentifier, C_DescriptorTagSubtitling, C_DescriptorTagTeletext, C_DescriptorTagVBIData,
+  C_DescriptorTagVBITeletext in *.
+
+Lemma is_user_defined_spec tag : is_user_defined tag = spec_is_user_defined tag.
+Proof. reflexivity. Qed.
+
+Lemma calc_none_0 :
+  calcDescriptorAC3Length None = 0 /\ calcDescriptorAVCVideoLength None = 0 /\ calcDescriptorComponentLength None = 0 /\
+  calcDescriptorContentLength None = 0 /\ calcDescriptorDataStreamAlignmentLength None = 0 /\
+  calcDescriptorEnhancedAC3Length None = 0 /\ fst (calcDescriptorExtendedEventLength None) = 0 /\
+  calc_extension_length None = 0 /\ calcDescriptorISO639LanguageAndAudioTypeLength None = 0 /\
+  calcDescriptorLocalTimeOffsetLength None = 0 /\ calcDescriptorMaximumBitrateLength None = 0 /\
+  calcDescriptorNetworkNameLength None = 0 /\ calcDescriptorParentalRatingLength None = 0 /\
+  calcDescriptorPrivateDataIndicatorLength None = 0 /\ calcDescriptorPrivateDataSpecifierLength None = 0 /\
+  calcDescriptorRegistrationLength None = 0 /\ calcDescriptorServiceLength None = 0 /\ calcDescriptorShortEventLength None = 0 /\
+  calcDescriptorStreamIdentifierLength None = 0 /\ calcDescriptorSubtitlingLength None = 0 /\
+  calcDescriptorTeletextLength None = 0 /\ calcDescriptorVBIDataLength None = 0 /\ calcDescriptorUnknownLength None = 0.
+Proof. repeat split; reflexivity. Qed.
+
+(* calcDescriptorLength is the size of the body the tag selects, modulo 256 *)
+Ltac calc_case L :=
+  match goal with
+  | |- (if ?c then _ else _) = _ => destruct c;
+      [ match goal with
+        | |- fst (_ ?o) = _ => destruct o as [v|]; [cbn [osize]; rewrite L; reflexivity|reflexivity]
+        | |- _ ?o = _ => destruct o as [v|]; [exact (L v)|reflexivity]
+        end | ]
+  end.
+
+Lemma calc_descriptor_length_size d : calc_descriptor_length d = desc_size d mod 256.
+Proof.
+  unfold calc_descriptor_length, desc_size. rewrite is_user_defined_spec. unfold_tags.
+  destruct (spec_is_user_defined (Descriptor_Tag d)); [reflexivity|].
+  calc_case calc_ac3_size. calc_case calc_avc_video_size. calc_case calc_component_size. calc_case calc_content_size.
+  calc_case calc_data_stream_alignment_size. calc_case calc_enhanced_ac3_size. calc_case calc_extended_event_size.
+  calc_case calc_extension_size. calc_case calc_iso639_size. calc_case calc_local_time_offset_size.
+  calc_case calc_maximum_bitrate_size. calc_case calc_network_name_size. calc_case calc_parental_rating_size.
+  calc_case calc_private_data_indicator_size. calc_case calc_private_data_specifier_size. calc_case calc_registration_size.
+  calc_case calc_service_size. calc_case calc_short_event_size. calc_case calc_stream_identifier_size.
+  calc_case calc_subtitling_size. calc_case calc_teletext_size. calc_case calc_vbi_data_size. calc_case calc_teletext_size.
+  destruct (Descriptor_Unknown d) as [v|]; [exact (calc_unknown_size v)|reflexivity].
+Qed.
+
+(* the body writer emits 8 * desc_size bits whenever it returns *)
+Ltac body_case L :=
+  match goal with
+  | |- (if ?c then _ else _) = _ -> _ => destruct c;
+      [ match goal with
+        | |- res_map _ (dneed ?o) = _ -> _ => destruct o as [v|]; cbn [dneed res_map osize]; [|discriminate];
+             let H := fresh "H" in intros H; inversion H; subst; clear H; exact (L v)
+        end | ]
+  end.
+
+Lemma enc_descriptor_body_size d its : enc_descriptor_body d = Ok its -> bitlen its = 8 * desc_size d.
+Proof.
+  unfold enc_descriptor_body, desc_size. rewrite is_user_defined_spec. unfold_tags.
+  destruct (spec_is_user_defined (Descriptor_Tag d)).
+  { intros H; inversion H; subst. bl. reflexivity. }
+  body_case bitlen_enc_ac3. body_case bitlen_enc_avc_video. body_case bitlen_enc_component. body_case bitlen_enc_content.
+  body_case bitlen_enc_data_stream_alignment. body_case bitlen_enc_enhanced_ac3. body_case bitlen_enc_extended_event.
+  destruct (Descriptor_Tag d =? 127).
+  { destruct (Descriptor_Extension d) as [v|]; cbn [dneed res_bind osize]; [|discriminate]. apply bitlen_enc_extension. }
+  body_case bitlen_enc_iso639. body_case bitlen_enc_local_time_offset. body_case bitlen_enc_maximum_bitrate.
+  body_case bitlen_enc_network_name. body_case bitlen_enc_parental_rating. body_case bitlen_enc_private_data_indicator.
+  body_case bitlen_enc_private_data_specifier. body_case bitlen_enc_registration. body_case bitlen_enc_service.
+  body_case bitlen_enc_short_event. body_case bitlen_enc_stream_identifier. body_case bitlen_enc_subtitling.
+  body_case bitlen_enc_teletext. body_case bitlen_enc_vbi_data. body_case bitlen_enc_teletext.
+  destruct (Descriptor_Unknown d) as [v|]; cbn [dneed res_map osize]; [|discriminate].
+  intros H; inversion H; subst. exact (bitlen_enc_unknown v).
+Qed.
+
+(* ---- sizes are non-negative ---- *)
+
+Lemma zlen_nonneg {A} (l : list A) : 0 <= zlen l. Proof. unfold zlen. lia. Qed.
+Lemma sumZ_nonneg {A} (f : A -> Z) l : (forall x, 0 <= f x) -> 0 <= sumZ f l.
+Proof. intros H. induction l as [|x l IH]; [cbn; lia|]. cbn [sumZ fold_right]. unfold sumZ in IH. specialize (H x). lia. Qed.
+Lemma b2z_nonneg b : 0 <= Z.b2z b. Proof. destruct b; cbn; lia. Qed.
+
+Lemma desc_size_nonneg d : 0 <= desc_size d.
+Proof.
+  unfold desc_size.
+  assert (Hs : forall l, 0 <= sumZ size_extended_event_item l).
+  { intros l. apply sumZ_nonneg. intros x. unfold size_extended_event_item. pose proof (zlen_nonneg (DescriptorExtendedEventItem_Description x)).
+    pose proof (zlen_nonneg (DescriptorExtendedEventItem_Content x)). lia. }
+  assert (Hv : forall l, 0 <= sumZ size_vbi_data_service l).
+  { intros l. apply sumZ_nonneg. intros x. unfold size_vbi_data_service. pose proof (zlen_nonneg (DescriptorVBIDataService_Descriptors x)).
+    destruct (spec_is_vbi_line_service _); lia. }
+  repeat match goal with
+  | |- 0 <= (if ?c then _ else _) => destruct c
+  | |- 0 <= zlen _ => apply zlen_nonneg
+  | |- 0 <= osize _ ?o => destruct o as [v|]; cbn [osize]; [|lia]
+  end;
+  unfold size_ac3, size_avc_video, size_component, size_content, size_data_stream_alignment, size_enhanced_ac3,
+    size_extended_event, size_extended_event_items, size_extension, size_supplementary_audio, size_iso639, size_local_time_offset,
+    size_maximum_bitrate, size_network_name, size_parental_rating, size_private_data_indicator, size_private_data_specifier,
+    size_registration, size_service, size_short_event, size_stream_identifier, size_subtitling, size_teletext, size_vbi_data, size_unknown;
+  repeat match goal with
+  | |- context [Z.b2z ?b] => pose proof (b2z_nonneg b); generalize dependent (Z.b2z b); intros
+  | |- context [zlen ?l] => pose proof (zlen_nonneg l); generalize dependent (zlen l); intros
+  | |- context [sumZ size_extended_event_item ?l] => pose proof (Hs l); generalize dependent (sumZ size_extended_event_item l); intros
+  | |- context [sumZ size_vbi_data_service ?l] => pose proof (Hv l); generalize dependent (sumZ size_vbi_data_service l); intros
+  | |- context [match ?o with Some _ => _ | None => _ end] => destruct o
+  | |- context [if ?c then _ else _] => destruct c
+  end; try lia.
+Qed.
+
+(* ---- from bits to bytes ---- *)
+
+Lemma bytes_of_items_zlen a n : items_bytes_ok a -> bitlen a = 8 * n -> zlen (bytes_of_items a) = n.
+Proof.
+  intros Hok Hb. rewrite (chunks_concat a Hok). unfold zlen, bitlen in *.
+  rewrite (bytes_of_bits_length (Z.to_nat n)); lia.
+Qed.
+
+Lemma bytes_of_items_app a b n : items_bytes_ok a -> items_bytes_ok b -> bitlen a = 8 * n ->
+  bytes_of_items (a ++ b) = bytes_of_items a ++ bytes_of_items b.
+Proof.
+  intros Ha Hb Hn. rewrite (chunks_concat _ (items_bytes_ok_app _ _ Ha Hb)), (chunks_concat a Ha), (chunks_concat b Hb).
+  rewrite items_bits_app. apply (bytes_of_bits_app (Z.to_nat n)). unfold bitlen in Hn. lia.
+Qed.
+
+Lemma bits_of_bytes_of_items a n : items_bytes_ok a -> bitlen a = 8 * n -> bits_of_bytes (bytes_of_items a) = items_bits a.
+Proof.
+  intros Hok Hb. rewrite (chunks_concat a Hok). apply (bits_of_bytes_of_bits (Z.to_nat n)). unfold bitlen in Hb. lia.
+Qed.
+
+Lemma items_bytes_ok_app_inv a b : items_bytes_ok (a ++ b) -> items_bytes_ok a /\ items_bytes_ok b.
+Proof. unfold items_bytes_ok. apply Forall_app. Qed.
+
+Lemma bytes_of_two_u8 t c : bytes_of_items [wu8 t; wu8 c] = [t mod 256; c mod 256].
+Proof.
+  rewrite chunks_concat by (repeat constructor). unfold wu8, items_bits. cbn [flat_map item_bits]. rewrite app_nil_r.
+  rewrite bytes_of_bits_8 by apply bits_of_length. rewrite bytes_of_bits_bits_of_8, Z_of_bits_of_mod. reflexivity.
+Qed.
+
+(* ---- one descriptor ---- *)
+
+(* bytes emitted behind the length byte: nothing when the computed length is 0, the whole body otherwise *)
+Definition emitted (d : Descriptor) : Z := if calc_descriptor_length d =? 0 then 0 else desc_size d.
+
+Lemma enc_descriptor_shape d its : enc_descriptor d = Ok its ->
+  exists body, its = [wu8 (Descriptor_Tag d); wu8 (calc_descriptor_length d)] ++ body /\ bitlen body = 8 * emitted d.
+Proof.
+  unfold enc_descriptor, emitted. destruct (calc_descriptor_length d =? 0).
+  - intros H; inversion H; subst. exists []. split; reflexivity.
+  - destruct (enc_descriptor_body d) as [body| |] eqn:E; cbn [res_map]; try discriminate.
+    intros H; inversion H; subst. exists body. split; [reflexivity|]. apply enc_descriptor_body_size. exact E.
+Qed.
+
+(* without uint8 wrap the length byte is the number of body bytes, whatever Descriptor_Length holds *)
+Lemma emitted_nowrap d : desc_size d < 256 -> emitted d = desc_size d /\ calc_descriptor_length d = desc_size d.
+Proof.
+  intros H. pose proof (desc_size_nonneg d). unfold emitted. rewrite calc_descriptor_length_size, Z.mod_small by lia.
+  split; [|reflexivity]. destruct (desc_size d =? 0) eqn:E; lia.
+Qed.
+
+(* with wrap: the length byte is the size modulo 256 and the body is still written in full, except that a
+   size that is a multiple of 256 writes no body at all *)
+Lemma emitted_wrap d : calc_descriptor_length d = desc_size d mod 256 /\
+  emitted d = if desc_size d mod 256 =? 0 then 0 else desc_size d.
+Proof. unfold emitted. rewrite calc_descriptor_length_size. split; reflexivity. Qed.
+
+(* the bytes of one descriptor: tag, length byte, body *)
+Lemma enc_descriptor_bytes d its : enc_descriptor d = Ok its -> items_bytes_ok its ->
+  exists body, bytes_of_items its = [Descriptor_Tag d mod 256; calc_descriptor_length d mod 256] ++ body /\
+               zlen body = emitted d /\ bitlen its = 8 * (2 + emitted d).
+Proof.
+  intros H Hok. destruct (enc_descriptor_shape d its H) as (body & -> & Hb).
+  apply items_bytes_ok_app_inv in Hok. destruct Hok as [Hh Hbody].
+  exists (bytes_of_items body). split; [|split].
+  - rewrite (bytes_of_items_app _ _ 2) by (auto; reflexivity). rewrite bytes_of_two_u8. reflexivity.
+  - apply bytes_of_items_zlen; assumption.
+  - rewrite bitlen_app, Hb. unfold wu8. bl. lia.
+Qed.
+
+(* ---- a loop ---- *)
+
+Definition entry_bytes (d : Descriptor) (body : list Z) : list Z :=
+  [Descriptor_Tag d mod 256; calc_descriptor_length d mod 256] ++ body.
+
+Fixpoint loop_bytes (ds : list Descriptor) (bodies : list (list Z)) : list Z :=
+  match ds, bodies with
+  | d :: ds', b :: bodies' => entry_bytes d b ++ loop_bytes ds' bodies'
+  | _, _ => []
+  end.
+
+Lemma enc_descriptors_bytes ds : forall its, enc_descriptors ds = Ok its -> items_bytes_ok its ->
+  exists bodies, bytes_of_items its = loop_bytes ds bodies /\
+                 Forall2 (fun d b => zlen b = emitted d) ds bodies /\
+                 bitlen its = 8 * sumZ (fun d => 2 + emitted d) ds.
+Proof.
+  induction ds as [|d ds IH]; intros its H Hok.
+  - inversion H; subst. exists []. repeat split; constructor.
+  - cbn [enc_descriptors] in H. destruct (enc_descriptor d) as [a| |] eqn:Ea; cbn [res_bind] in H; try discriminate.
+    destruct (enc_descriptors ds) as [r| |] eqn:Er; cbn [res_map] in H; try discriminate.
+    inversion H; subst. apply items_bytes_ok_app_inv in Hok. destruct Hok as [Hoa Hor].
+    destruct (enc_descriptor_bytes d a Ea Hoa) as (body & Eb & Hl & Hbits).
+    destruct (IH r eq_refl Hor) as (bodies & Ebs & HF & Hbits').
+    exists (body :: bodies). split; [|split].
+    + rewrite (bytes_of_items_app _ _ (2 + emitted d)) by assumption. rewrite Eb, Ebs. reflexivity.
+    + constructor; assumption.
+    + rewrite bitlen_app, Hbits, Hbits'. cbn [sumZ fold_right]. unfold sumZ. lia.
+Qed.
+
+(* calcDescriptorsLength without wrap *)
+Lemma calc_descriptors_length_nowrap ds : Forall (fun d => desc_size d < 256) ds -> loop_size ds < 65536 ->
+  calc_descriptors_length ds = loop_size ds.
+Proof.
+  unfold calc_descriptors_length, loop_size.
+  assert (G : forall ds a, Forall (fun d => desc_size d < 256) ds -> 0 <= a -> a + sumZ (fun d => 2 + desc_size d) ds < 65536 ->
+     fold_left (fun length d => ((length + 2) mod 65536 + calc_descriptor_length d) mod 65536) ds a = a + sumZ (fun d => 2 + desc_size d) ds).
+  { clear. induction ds as [|d ds IH]; intros a HF Ha Hs; [cbn; lia|].
+    inversion HF; subst. cbn [fold_left sumZ fold_right] in *. fold (sumZ (fun d => 2 + desc_size d) ds) in *.
+    pose proof (desc_size_nonneg d). assert (0 <= sumZ (fun d => 2 + desc_size d) ds).
+    { apply sumZ_nonneg. intros x. pose proof (desc_size_nonneg x). lia. }
+    destruct (emitted_nowrap d H1) as [_ Ec]. rewrite Ec.
+    rewrite (Z.mod_small (a + 2)) by lia. rewrite Z.mod_small by lia. rewrite IH by (auto; lia). lia. }
+  intros HF Hs. rewrite G by (auto; lia). lia.
+Qed.
+
+(* C14_len: the loop length and every length byte equal the bytes actually emitted, for arbitrary
+   Descriptor_Length fields, provided no body exceeds 255 bytes and the loop 4095 *)
+Theorem descriptors_with_length_exact ds out :
+  enc_descriptors_with_length ds = Ok out -> items_bytes_ok out ->
+  Forall (fun d => desc_size d < 256) ds -> loop_size ds < 4096 ->
+  let bytes := bytes_of_items out in
+  exists hdr bodies,
+    bytes = hdr ++ loop_bytes ds bodies /\ zlen hdr = 2 /\
+    Forall2 (fun d b => zlen b = calc_descriptor_length d /\ zlen b = desc_size d) ds bodies /\
+    bitsf bytes 4 12 = zlen bytes - 2 /\
+    zlen bytes = 2 + loop_size ds.
+Proof.
+  intros H Hok HF Hs bytes. unfold enc_descriptors_with_length in H.
+  destruct (enc_descriptors ds) as [its| |] eqn:E; cbn [res_map] in H; try discriminate.
+  assert (Eo : out = [WBits 4 255; WBits 12 (calc_descriptors_length ds)] ++ its) by (inversion H; reflexivity).
+  subst out; clear H.
+  apply items_bytes_ok_app_inv in Hok. destruct Hok as [Hoh Hoi].
+  destruct (enc_descriptors_bytes ds its E Hoi) as (bodies & Eb & HF2 & Hbits).
+  assert (Esum : sumZ (fun d => 2 + emitted d) ds = loop_size ds).
+  { unfold loop_size. clear -HF. induction HF as [|d ds Hd _ IH]; [reflexivity|]. cbn [sumZ fold_right]. unfold sumZ in IH. rewrite IH.
+    destruct (emitted_nowrap d Hd) as [-> _]. reflexivity. }
+  assert (Hh : bitlen [WBits 4 255; WBits 12 (calc_descriptors_length ds)] = 8 * 2) by (bl; reflexivity).
+  assert (Hlen : zlen bytes = 2 + loop_size ds).
+  { unfold bytes. apply bytes_of_items_zlen; [apply items_bytes_ok_app; assumption|]. rewrite bitlen_app, Hh, Hbits, Esum. lia. }
+  exists (bytes_of_items [WBits 4 255; WBits 12 (calc_descriptors_length ds)]), bodies.
+  split; [|split; [|split; [|split]]].
+  - unfold bytes. rewrite (bytes_of_items_app _ _ 2) by assumption. rewrite Eb. reflexivity.
+  - apply bytes_of_items_zlen; assumption.
+  - clear -HF HF2. induction HF2 as [|d b ds bodies Hb _ IH]; [constructor|]. inversion HF; subst.
+    constructor; [|apply IH; assumption]. destruct (emitted_nowrap d H1) as [E1 E2]. rewrite E2. lia.
+  - rewrite Hlen. unfold bytes, bitsf.
+    rewrite (bits_of_bytes_of_items _ (2 + loop_size ds)).
+    2:{ apply items_bytes_ok_app; assumption. }
+    2:{ rewrite bitlen_app, Hh, Hbits, Esum. lia. }
+    rewrite items_bits_app. unfold items_bits at 1. cbn [flat_map item_bits]. rewrite app_nil_r, <- app_assoc.
+    rewrite (field_skip 4) by lia. change (4 - 4)%nat with 0%nat. rewrite field_here_mod.
+    pose proof (sumZ_nonneg (fun d => 2 + desc_size d) ds) as Hnn. unfold loop_size in *.
+    rewrite calc_descriptors_length_nowrap by (auto; unfold loop_size; lia). unfold loop_size.
+    rewrite Z.mod_small; [lia|]. split; [apply Hnn; intros x; pose proof (desc_size_nonneg x); lia|]. change (2 ^ Z.of_nat 12) with 4096. lia.
+  - exact Hlen.
+Qed.
+
+(* ================= part B: TLV framing of parseDescriptors ================= *)
+
+(* a parser that never touches the byte slice of the iterator *)
+Definition pres {A} (m : IM A) : Prop := forall i a i', m i = Ok (a, i') -> ibs i' = ibs i.
+Definition body_pres (body : Z -> Z -> Z -> IM Descriptor) : Prop := forall t l e, pres (body t l e).
+(* a body parser that reports the tag and length it was given *)
+Definition body_hdr (body : Z -> Z -> Z -> IM Descriptor) : Prop :=
+  forall t l e i d i', body t l e i = Ok (d, i') -> Descriptor_Tag d = t /\ Descriptor_Length d = l.
+
+Lemma pres_ret {A} (a : A) : pres (iret a).
+Proof. intros i x i' H. inversion H; reflexivity. Qed.
+Lemma pres_err {A} c : pres (@ierr A c). Proof. intros i x i' H. discriminate. Qed.
+Lemma pres_panic {A} : pres (@ipanic A). Proof. intros i x i' H. discriminate. Qed.
+Lemma pres_bind {A B} (m : IM A) (f : A -> IM B) : pres m -> (forall a, pres (f a)) -> pres (ibind m f).
+Proof.
+  intros Hm Hf i b i' H. unfold ibind in H. destruct (m i) as [[a i1]| |] eqn:E; try discriminate.
+  rewrite (Hf a i1 b i' H). apply (Hm i a i1 E).
+Qed.
+Lemma pres_next_byte : pres next_byte.
+Proof. intros i b i' H. apply next_byte_ok in H. tauto. Qed.
+Lemma pres_next_bytes n : pres (next_bytes n).
+Proof. intros i b i' H. apply next_bytes_ok in H. tauto. Qed.
+Lemma pres_next_bytes_nocopy n : pres (next_bytes_nocopy n).
+Proof. apply pres_next_bytes. Qed.
+Lemma pres_ioffset : pres ioffset. Proof. intros i b i' H. inversion H; reflexivity. Qed.
+Lemma pres_iseek n : pres (iseek n). Proof. intros i b i' H. inversion H; reflexivity. Qed.
+Lemma pres_iloop_fuel {A} (item : IM A) e : pres item -> forall k, pres (iloop_fuel k e item).
+Proof.
+  intros Hi k. induction k as [|k IH]; cbn [iloop_fuel]; [apply pres_err|].
+  apply pres_bind; [apply pres_ioffset|]. intros off. destruct (off <? e); [|apply pres_ret].
+  apply pres_bind; [exact Hi|]. intros a. apply pres_bind; [exact IH|]. intros r. apply pres_ret.
+Qed.
+Lemma pres_iloop {A} (item : IM A) e : pres item -> pres (iloop e item).
+Proof. intros Hi. unfold iloop. apply pres_bind; [apply pres_ioffset|]. intros off. apply pres_iloop_fuel. exact Hi. Qed.
+
+Ltac pres_step :=
+  match goal with
+  | |- pres (ibind _ _) => apply pres_bind; [|intros ?]
+  | |- pres (iret _) => apply pres_ret
+  | |- pres (ierr _) => apply pres_err
+  | |- pres ipanic => apply pres_panic
+  | |- pres next_byte => apply pres_next_byte
+  | |- pres (next_bytes _) => apply pres_next_bytes
+  | |- pres (next_bytes_nocopy _) => apply pres_next_bytes_nocopy
+  | |- pres ioffset => apply pres_ioffset
+  | |- pres (iseek _) => apply pres_iseek
+  | |- pres (iloop _ _) => apply pres_iloop
+  | |- pres (if ?c then _ else _) => destruct c
+  | |- pres (match ?l with [] => _ | _ :: _ => _ end) => destruct l
+  end.
+Ltac pres_tac := repeat pres_step.
+
+(* the DVB parsers behind the interface of Model/Dvb.v *)
+Lemma pres_parse_dvb_duration_minutes : pres parse_dvb_duration_minutes.
+Proof. unfold parse_dvb_duration_minutes. pres_tac. Qed.
+Lemma pres_parse_dvb_duration_seconds : pres parse_dvb_duration_seconds.
+Proof. unfold parse_dvb_duration_seconds. pres_tac. Qed.
+Lemma pres_parse_dvb_time : pres parse_dvb_time.
+Proof. unfold parse_dvb_time. pres_tac. apply pres_parse_dvb_duration_seconds. Qed.
+
+Lemma pres_parse_descriptor_body : body_pres parse_descriptor_body.
+Proof.
+  intros t l e. unfold parse_descriptor_body.
+  repeat match goal with |- pres (if ?c then _ else _) => destruct c end;
+  unfold new_descriptor_ac3, new_descriptor_avc_video, new_descriptor_component, new_descriptor_content, content_item,
+    new_descriptor_data_stream_alignment, new_descriptor_enhanced_ac3, new_descriptor_extended_event,
+    new_descriptor_extended_event_item, new_descriptor_extension, new_descriptor_extension_supplementary_audio,
+    new_descriptor_iso639, new_descriptor_local_time_offset, local_time_offset_item, new_descriptor_maximum_bitrate,
+    new_descriptor_network_name, new_descriptor_parental_rating, parental_rating_item, new_descriptor_private_data_indicator,
+    new_descriptor_private_data_specifier, new_descriptor_registration, new_descriptor_service, new_descriptor_short_event,
+    new_descriptor_stream_identifier, new_descriptor_subtitling, subtitling_item, new_descriptor_teletext, teletext_item,
+    new_descriptor_unknown, new_descriptor_vbi_data, vbi_data_service, opt_byte, rest_bytes, bytes_to;
+  pres_tac;
+  first [ apply pres_parse_dvb_duration_minutes | apply pres_parse_dvb_time ].
+Qed.
+
+Lemma hdr_parse_descriptor_body : body_hdr parse_descriptor_body.
+Proof.
+  intros t l e i d i'. unfold parse_descriptor_body.
+  repeat match goal with |- (if ?c then _ else _) _ = _ -> _ => destruct c end;
+  unfold ibind;
+  match goal with |- match ?m i with _ => _ end = _ -> _ => destruct (m i) as [[v i1]| |]; try discriminate end;
+  unfold iret; intros H; inversion H; subst; split; reflexivity.
+Qed.
+
+(* ---- reading the two header bytes ---- *)
+
+Lemma nth_skipn {A} (l : list A) n k d : nth k (skipn n l) d = nth (n + k) l d.
+Proof. revert l. induction n as [|n IH]; intros l; [reflexivity|]. destruct l; [destruct k; reflexivity|]. cbn [skipn]. rewrite IH. reflexivity. Qed.
+
+Lemma next_two bs pos r i' : next_bytes_nocopy 2 (mk_iter bs pos) = Ok (r, i') ->
+  0 <= pos /\ pos + 2 <= zlen bs /\ i' = mk_iter bs (pos + 2) /\
+  byte_at r 0 = byte_of bs pos /\ byte_at r 1 = byte_of bs (pos + 1) /\ length r = 2%nat.
+Proof.
+  intros H. apply next_bytes_ok in H. cbn [ibs ioff] in H. destruct H as (_ & Hp & Hl & Hbs & Hoff & Hr).
+  unfold ilen in Hl; cbn [ibs] in Hl. split; [lia|]. split; [exact Hl|]. split.
+  { destruct i'; cbn in *; subst; reflexivity. }
+  subst r. unfold byte_at, byte_of, slice. replace (pos + 2 - pos) with 2 by lia.
+  assert (Hlen : (2 <= length (skipn (Z.to_nat pos) bs))%nat) by (rewrite skipn_length; unfold zlen in Hl; lia).
+  destruct (skipn (Z.to_nat pos) bs) as [|x [|y l]] eqn:E; cbn [length] in Hlen; try lia.
+  cbn [Z.to_nat Pos.to_nat Pos.iter_op firstn nth length]. 
+  pose proof (nth_skipn bs (Z.to_nat pos) 0 0) as N0. pose proof (nth_skipn bs (Z.to_nat pos) 1 0) as N1.
+  rewrite E in N0, N1. cbn [nth] in N0, N1. rewrite Nat.add_0_r in N0.
+  replace (Z.to_nat (pos + 1)) with (Z.to_nat pos + 1)%nat by lia. auto.
+Qed.
+
+(* ---- one round ---- *)
+
+Lemma parse_descriptor_with_spec body bs pos d i' : body_pres body ->
+  parse_descriptor_with body (mk_iter bs pos) = Ok (d, i') ->
+  0 <= pos /\ pos + 2 <= zlen bs /\ ibs i' = bs /\
+  ((byte_of bs (pos + 1) <= 0 /\ d = desc_hdr (byte_of bs pos) (byte_of bs (pos + 1)) /\ ioff i' = pos + 2) \/
+   (0 < byte_of bs (pos + 1) /\ ioff i' = pos + 2 + byte_of bs (pos + 1) /\
+    exists i1, body (byte_of bs pos) (byte_of bs (pos + 1)) (pos + 2 + byte_of bs (pos + 1)) (mk_iter bs (pos + 2)) = Ok (d, i1))).
+Proof.
+  intros Hp H. unfold parse_descriptor_with, ibind in H.
+  destruct (next_bytes_nocopy 2 (mk_iter bs pos)) as [[r i1]| |] eqn:E; try discriminate.
+  apply next_two in E. destruct E as (H0 & H2 & -> & Et & El & _). rewrite Et, El in H.
+  split; [exact H0|]. split; [exact H2|].
+  destruct (byte_of bs (pos + 1) >? 0) eqn:Eg.
+  - unfold ioffset in H. cbn [ioff] in H.
+    destruct (body _ _ _ (mk_iter bs (pos + 2))) as [[d1 i2]| |] eqn:Eb; try discriminate.
+    unfold iseek, iret in H. inversion H; subst. cbn [ibs ioff].
+    split; [apply (Hp _ _ _ _ _ _ Eb)|]. right. split; [lia|]. split; [reflexivity|]. eexists; reflexivity.
+  - unfold iret in H. inversion H; subst. cbn [ibs ioff]. split; [reflexivity|]. left. split; [lia|]. auto.
+Qed.
+
+(* ---- the loop ---- *)
+
+Lemma descriptor_loop_spec body bs endp : body_pres body -> forall k pos ds i',
+  iloop_fuel k endp (parse_descriptor_with body) (mk_iter bs pos) = Ok (ds, i') ->
+  ibs i' = bs /\ tlv_parse desc_hdr body bs endp pos ds (ioff i').
+Proof.
+  intros Hp. induction k as [|k IH]; intros pos ds i' H; [discriminate|].
+  cbn [iloop_fuel] in H. unfold ibind at 1 in H. unfold ioffset at 1 in H. cbn [ioff] in H.
+  destruct (pos <? endp) eqn:El.
+  - unfold ibind at 1 in H.
+    destruct (parse_descriptor_with body (mk_iter bs pos)) as [[d i1]| |] eqn:Ed; try discriminate.
+    unfold ibind at 1 in H. destruct i1 as [bs1 off1].
+    destruct (parse_descriptor_with_spec body bs pos d _ Hp Ed) as (H0 & H2 & Hbs & Hcase). cbn [ibs ioff] in Hbs, Hcase. subst bs1.
+    destruct (iloop_fuel k endp (parse_descriptor_with body) (mk_iter bs off1)) as [[r i2]| |] eqn:Er; try discriminate.
+    unfold iret in H. inversion H; subst. destruct (IH _ _ _ Er) as [Hb Ht]. split; [exact Hb|].
+    destruct Hcase as [(Hz & -> & Ho)|(Hz & Ho & i3 & Eb)]; subst off1.
+    + apply tlv_parse_empty; try assumption; lia.
+    + eapply tlv_parse_body; try eassumption; lia.
+  - unfold iret in H. inversion H; subst. cbn [ibs ioff]. split; [reflexivity|]. apply tlv_parse_done. lia.
+Qed.
+
+(* the 12 bits of the loop length *)
+Lemma bits_of_split a b v : bits_of (a + b) v = bits_of a (v / 2 ^ Z.of_nat b) ++ bits_of b v.
+Proof.
+  induction a as [|a IH]; [reflexivity|]. cbn [Nat.add bits_of app]. rewrite IH. f_equal.
+  rewrite Z.div_pow2_bits by lia. f_equal. lia.
+Qed.
+
+Lemma Z_of_bits_app l1 l2 : Z_of_bits (l1 ++ l2) = Z_of_bits l1 * 2 ^ Z.of_nat (length l2) + Z_of_bits l2.
+Proof.
+  unfold Z_of_bits. rewrite Z_of_bits_acc_app. generalize (Z_of_bits_acc l1 0) as acc. intros acc.
+  rewrite <- (bits_of_Z_of_bits l2) at 1. rewrite Z_of_bits_acc_bits_of.
+  pose proof (Z_of_bits_range l2). fold (Z_of_bits l2). rewrite Z.mod_small by exact H. reflexivity.
+Qed.
+
+Lemma loop_length_bits r b0 b1 : length r = 2%nat -> byte_at r 0 = b0 -> byte_at r 1 = b1 ->
+  bitsf r 4 12 = (b0 mod 16) * 256 + b1 mod 256.
+Proof.
+  intros Hl E0 E1. destruct r as [|x [|y [|z r]]]; try discriminate. unfold byte_at in *. cbn [nth] in *. subst.
+  unfold bitsf, bits_of_bytes. cbn [flat_map]. rewrite app_nil_r.
+  change 8%nat with (4 + 4)%nat at 1. rewrite bits_of_split, <- app_assoc.
+  rewrite (field_skip 4) by lia. change (4 - 4)%nat with 0%nat.
+  unfold field. cbn [skipn]. rewrite firstn_all2 by (rewrite app_length, !bits_of_length; lia).
+  rewrite Z_of_bits_app, !Z_of_bits_of_mod, bits_of_length. reflexivity.
+Qed.
+
+(* parseDescriptors with any body parser that leaves the byte slice alone: on success the descriptors are the
+   results of the body parser on the TLV entries of the loop, each started at its own entry, and the iterator
+   is left where the entries end *)
+Theorem parse_descriptors_tlv body bs pos ds i' : body_pres body ->
+  parse_descriptors_with body (mk_iter bs pos) = Ok (ds, i') ->
+  0 <= pos /\ pos + 2 <= zlen bs /\ ibs i' = bs /\
+  tlv_parse desc_hdr body bs (pos + 2 + loop_length_at bs pos) (pos + 2) ds (ioff i').
+Proof.
+  intros Hp H. unfold parse_descriptors_with in H. unfold ibind at 1 in H.
+  destruct (next_bytes_nocopy 2 (mk_iter bs pos)) as [[r i1]| |] eqn:E; try discriminate.
+  apply next_two in E. destruct E as (H0 & H2 & -> & Et & El & Hr).
+  rewrite (loop_length_bits r _ _ Hr Et El) in H. fold (loop_length_at bs pos) in H.
+  split; [exact H0|]. split; [exact H2|].
+  destruct (loop_length_at bs pos >? 0) eqn:Eg.
+  - unfold ibind at 1 in H. unfold ioffset at 1 in H. cbn [ioff] in H. unfold iloop, ibind at 1, ioffset at 1 in H. cbn [ioff] in H.
+    apply (descriptor_loop_spec body bs _ Hp) in H. exact H.
+  - unfold iret in H. inversion H; subst. cbn [ibs ioff]. split; [reflexivity|]. apply tlv_parse_done. lia.
+Qed.
+
+(* the entries are a function of the bytes alone *)
+Lemma tlv_chain_det bs endp pos es fin : tlv_chain bs endp pos es fin ->
+  forall es' fin', tlv_chain bs endp pos es' fin' -> es' = es /\ fin' = fin.
+Proof.
+  induction 1 as [pos Hge|pos es fin Hlt H0 H2 _ IH]; intros es' fin' H'; inversion H'; subst; try lia.
+  - split; reflexivity.
+  - match goal with Hc : tlv_chain _ _ _ _ fin' |- _ => destruct (IH _ _ Hc) as [-> ->] end. split; reflexivity.
+Qed.
+
+(* the walk stops at the first entry boundary that is not before the declared end of the loop *)
+Lemma tlv_chain_fin bs endp pos es fin : tlv_chain bs endp pos es fin -> endp <= fin.
+Proof. induction 1; lia. Qed.
+
+Lemma byte_of_range bs p : bytes_ok bs -> 0 <= byte_of bs p < 256.
+Proof.
+  intros H. unfold byte_of. destruct (nth_in_or_default (Z.to_nat p) bs 0) as [Hin|Hd]; [|lia].
+  unfold bytes_ok in H. rewrite Forall_forall in H. apply H in Hin. exact Hin.
+Qed.
+
+(* tags and lengths returned = tags and lengths of the entries (for byte strings: every element in 0..255) *)
+Lemma tlv_parse_chain body bs endp pos ds fin : body_hdr body -> bytes_ok bs ->
+  tlv_parse desc_hdr body bs endp pos ds fin ->
+  exists es, tlv_chain bs endp pos es fin /\
+             map (fun d => (Descriptor_Tag d, Descriptor_Length d)) ds = map (fun e => (snd (fst e), snd e)) es.
+Proof.
+  intros Hh Hok. induction 1 as [pos Hge|pos ds fin Hlt H0 H2 Hz _ IH|pos d i' ds fin Hlt H0 H2 Hz Eb _ IH].
+  - exists []. split; [constructor; exact Hge|reflexivity].
+  - destruct IH as (es & Hc & Hm). exists ((pos, byte_of bs pos, byte_of bs (pos + 1)) :: es).
+    pose proof (byte_of_range bs (pos + 1) Hok) as Hr. assert (Ez : byte_of bs (pos + 1) = 0) by lia. split.
+    + constructor; try assumption. rewrite Ez. replace (pos + 2 + 0) with (pos + 2) by lia. exact Hc.
+    + cbn [map fst snd]. rewrite Hm. reflexivity.
+  - destruct IH as (es & Hc & Hm). destruct (Hh _ _ _ _ _ _ Eb) as [Et El].
+    exists ((pos, byte_of bs pos, byte_of bs (pos + 1)) :: es). split; [constructor; assumption|].
+    cbn [map fst snd]. rewrite Hm, Et, El. reflexivity.
+Qed.
+
+(* C14_tlv for the concrete parser *)
+Theorem parse_descriptors_framing bs pos ds i' : bytes_ok bs ->
+  parse_descriptors (mk_iter bs pos) = Ok (ds, i') ->
+  let endp := pos + 2 + loop_length_at bs pos in
+  ibs i' = bs /\
+  tlv_parse desc_hdr parse_descriptor_body bs endp (pos + 2) ds (ioff i') /\
+  exists es, tlv_chain bs endp (pos + 2) es (ioff i') /\
+             map (fun d => (Descriptor_Tag d, Descriptor_Length d)) ds = map (fun e => (snd (fst e), snd e)) es /\
+             endp <= ioff i'.
+Proof.
+  intros Hok H endp. destruct (parse_descriptors_tlv _ _ _ _ _ pres_parse_descriptor_body H) as (H0 & H2 & Hbs & Ht).
+  split; [exact Hbs|]. split; [exact Ht|].
+  destruct (tlv_parse_chain _ _ _ _ _ _ hdr_parse_descriptor_body Hok Ht) as (es & Hc & Hm).
+  exists es. split; [exact Hc|]. split; [exact Hm|]. apply (tlv_chain_fin _ _ _ _ _ Hc).
+Qed.
+
+(* when the entries tile the loop exactly (the last one ends at the declared end), parseDescriptors consumes
+   exactly 2 + loop length bytes *)
+Lemma tlv_chain_exact bs endp pos es fin : tlv_chain bs endp pos es fin ->
+  (es = [] /\ fin = pos) \/ (es <> [] /\ exists p t l, last es (0, 0, 0) = (p, t, l) /\ fin = p + 2 + l).
+Proof.
+  induction 1 as [pos Hge|pos es fin Hlt H0 H2 Hc IH]; [left; auto|right]. split; [discriminate|].
+  destruct IH as [[-> ->]|(Hne & p & t & l & El & Ef)].
+  - do 3 eexists. split; reflexivity.
+  - exists p, t, l. split; [|exact Ef]. destruct es; [contradiction|exact El].
+Qed.
